@@ -104,6 +104,32 @@ def features(impl_out):
             f.add('oldlive')
     return f
 
+def life_scan(impl_out):
+    """C08 structural scan of the implementation's dumps: the superseded bucket array must be released as
+    soon as no stripe of the current lock array is pending (Life.old_released); the freshly constructed
+    table's 1-bucket placeholder (ohp=0, empty) is exempt.  Returns the first offending op or None."""
+    cur_op = None
+    tline = None
+    last_l = None
+    for line in impl_out.split('\n'):
+        if line.startswith('#'):
+            cur_op = line
+        elif line.startswith('T'):
+            tline = dict(p.split('=') for p in line.split()[1:]); tline['_t'] = line.split()[0]
+            last_l = None
+        elif line.startswith(' L'):
+            last_l = line
+        elif line.startswith(' O') and tline is not None:
+            # old array alive: is anything pending in the current (last) lock array?
+            pending = last_l is not None and any(x.endswith(':0') for x in last_l.split()[2:])
+            content = len(line.split()) > 1
+            if tline.get('odead') == '0' and not pending and (content or tline.get('ohp') != '0') and tline.get('size') != None:
+                if ' destroy' in (cur_op or '') :
+                    continue
+                return '%s: table %s keeps its superseded bucket array (ohp=%s, %d slots) although no stripe is pending' % (
+                    cur_op, tline['_t'], tline.get('ohp'), len(line.split()) - 1)
+    return None
+
 def run_case(args):
     binary, script_text, tag, keep_dir = args
     h = hashlib.sha1(script_text.encode()).hexdigest()[:16]
@@ -133,6 +159,10 @@ def run_case(args):
     if rc_i != 0:
         res['status'] = 'impl_crash'; res['detail'] = 'exit %s %s' % (rc_i, err_i[-500:])
         res['impl_out_tail'] = out_i[-2000:]
+        return res
+    ls = life_scan(out_i)
+    if ls and 'moveallocto' not in script_text and 'swap' not in script_text and 'copyallocto' not in script_text:
+        res['status'] = 'life'; res['detail'] = ls
         return res
     if 'HARNESS-ERROR' in out_i:
         res['status'] = 'harness_error'
